@@ -43,6 +43,8 @@ var c37Assumptions = []string{
 	"the second branch and the independent database receive exactly the same statement sequence (including the parent table of the foreign key): tag collision resolution against tables that exist on one side only is by design and not asserted",
 	"FULLTEXT, SPATIAL and VECTOR indexes are not generated",
 	"tables hold no rows (tags and serialization do not depend on data)",
+	"while finding " + c37FindIdxComment + " is listed open, index comments contain no single quote (replaced comments are counted as excluded_known); the pinned sub-test reports it",
+	"the foreign key column is never part of a generated index (dolt lets DROP INDEX remove the index backing a foreign key and then refuses to commit)",
 	"while finding " + c37FindVirtualAdd + " is listed open, CHECK and table COMMENT fragments are not expected in SHOW CREATE TABLE once the table has a VIRTUAL generated column (skipped expectations are counted as excluded_known); the pinned sub-test reports it",
 	"because the in-process schema is itself read from storage, loss of an attribute is checked against the written DDL: right after a statement SHOW CREATE TABLE must contain its ON UPDATE / GENERATED / DEFAULT (function) / table COLLATE / AUTO_INCREMENT / COMMENT (texts without quotes or backslashes) / index, check and foreign key fragments (case-insensitive substring match)",
 	"columns named by a CHECK constraint or by a generated column's expression are never renamed, retyped or dropped (dolt accepts e.g. CHANGE COLUMN of a column a CHECK refers to and leaves a table that SHOW CREATE TABLE cannot render; a DDL validation gap outside this property)",
@@ -499,7 +501,10 @@ var c37Classes = []string{"int", "int", "int", "dec", "float", "str", "str", "st
 func c37GenIndexDef(rt *rapid.T, m *c37Model) (name, def string, ok bool) {
 	var cands []c37Col
 	for _, c := range m.Cols {
-		if c.Class != "json" {
+		// the foreign key column stays out of generated indexes: dolt lets DROP INDEX remove the index
+		// backing a foreign key and then fails at dolt_commit ("foreign key has entered an invalid
+		// state"), a DDL validation gap outside this property
+		if c.Class != "json" && c.Name != "fkc" {
 			cands = append(cands, c)
 		}
 	}
@@ -530,7 +535,13 @@ func c37GenIndexDef(rt *rapid.T, m *c37Model) (name, def string, ok bool) {
 	}
 	def = fmt.Sprintf("%sKEY `%s` (%s)", u, name, strings.Join(parts, ","))
 	if rapid.IntRange(0, 3).Draw(rt, "idx.hascomment") == 0 {
-		def += " COMMENT " + c37Quote(rapid.SampledFrom(c37Comments).Draw(rt, "idx.comment"))
+		cm := rapid.SampledFrom(c37Comments).Draw(rt, "idx.comment")
+		if strings.Contains(cm, "'") && c37NoQuoteIdxComment {
+			// known finding C37-index-comment-quote-unescaped: excluded by construction
+			c37Excluded++
+			cm = "its"
+		}
+		def += " COMMENT " + c37Quote(cm)
 	}
 	return name, def, true
 }
@@ -907,6 +918,26 @@ func c37PinnedVirtualAdd(t *testing.T, srv *vsql.Server, admin *vsql.Session) st
 	return ""
 }
 
+// c37FindIdxComment: an index COMMENT containing a single quote is written unescaped whenever the
+// CREATE TABLE text is regenerated and re-parsed (adding a generated column, merging the table):
+// those operations fail with "syntax error ... near 's'".
+const c37FindIdxComment = "C37-index-comment-quote-unescaped"
+
+var c37NoQuoteIdxComment bool
+
+func c37PinnedIdxComment(t *testing.T, srv *vsql.Server, admin *vsql.Session) string {
+	db := srv.NewDBName()
+	admin.MustExec(t, "CREATE DATABASE "+db)
+	defer admin.Exec("DROP DATABASE " + db)
+	s := srv.Session(t, "pinned", db)
+	defer s.Close()
+	s.MustExec(t, "CREATE TABLE t (c0 SMALLINT NOT NULL, KEY ix1 (c0) COMMENT 'it''s')")
+	if err := s.Exec("ALTER TABLE t ADD COLUMN a9 INT GENERATED ALWAYS AS (c0 + 1) VIRTUAL"); err != nil {
+		return "CREATE TABLE t (c0 SMALLINT NOT NULL, KEY ix1 (c0) COMMENT 'it''s'); ALTER TABLE t ADD COLUMN a9 INT GENERATED ALWAYS AS (c0 + 1) VIRTUAL fails: " + qClip(err.Error(), 120)
+	}
+	return ""
+}
+
 // c37CurProg is the program of the running case (for messages only).
 var c37CurProg string
 
@@ -943,6 +974,17 @@ func TestVerif_C37(t *testing.T) {
 				return
 			}
 			vh.NoteViolation(t.Name(), "", `{"sql":["CREATE TABLE t2 (c0 INT PRIMARY KEY, c1 INT, CONSTRAINT chk1 CHECK (c1 < 5), a4 INT GENERATED ALWAYS AS (c0 + 1) VIRTUAL) COMMENT='plain'","SHOW CREATE TABLE t2","INSERT INTO t2 (c0, c1) VALUES (1, 100)"],"observed":"`+strings.ReplaceAll(msg, `"`, `'`)+`"}`)
+			t.Errorf("%s", msg)
+		}
+	})
+	c37NoQuoteIdxComment = vh.OpenFinding("C37", c37FindIdxComment)
+	t.Run("pinned_index_comment_quote_unescaped", func(t *testing.T) {
+		if msg := c37PinnedIdxComment(t, srv, admin); msg != "" {
+			if vh.OpenFinding("C37", c37FindIdxComment) {
+				vh.ReportKnown("C37", c37FindIdxComment, msg)
+				return
+			}
+			vh.NoteViolation(t.Name(), "", `{"sql":["CREATE TABLE t (c0 SMALLINT NOT NULL, KEY ix1 (c0) COMMENT 'it''s')","ALTER TABLE t ADD COLUMN a9 INT GENERATED ALWAYS AS (c0 + 1) VIRTUAL"],"observed":"`+strings.ReplaceAll(msg, `"`, `'`)+`"}`)
 			t.Errorf("%s", msg)
 		}
 	})
@@ -1168,7 +1210,7 @@ func TestVerif_C37(t *testing.T) {
 		desc := strings.Join(accepted, "; ")
 		if c37Excluded > 0 {
 			recRT.Excluded(c37Excluded)
-			recRT.Class("known:"+c37FindVirtualAdd, c37Excluded)
+			recRT.Class("known_excluded_fragments", c37Excluded)
 			c37Excluded = 0
 		}
 		recRT.Case(desc, m.ExprDefault && m.NonDefColl && hasIdx, classes...)
